@@ -12,13 +12,54 @@ inductive Steps (n : Nat) : VSt → VSt → Prop
   | refl (s) : Steps n s s
   | tail {s s' s''} : Steps n s s' → Step n s' s'' → Steps n s s''
 
+theorem Steps.head {n s s' s''} (h : Step n s s') (hs : Steps n s' s'') : Steps n s s'' := by
+  induction hs with
+  | refl => exact .tail (.refl _) h
+  | tail _ st ih => exact .tail ih st
+
+theorem runAlone_idle {n t fuel s evs} (h : s.pc t = .idle) :
+    runAlone n t fuel s evs = (s, evs) := by
+  cases fuel with
+  | zero => rfl
+  | succ f => unfold runAlone; simp [h]
+
+theorem runAlone_succ {n t fuel s evs s' o} (hne : s.pc t ≠ .idle)
+    (hn : next n s t (choiceFor s t .none false) = some (s', o)) :
+    runAlone n t (fuel + 1) s evs = runAlone n t fuel s' (evs ++ [o.ev]) := by
+  rw [runAlone]
+  split
+  · rename_i e; exact absurd e hne
+  · simp [hn]
+
 theorem runAlone_steps (n : Nat) (t : Tid) : ∀ fuel s evs, Steps n s (runAlone n t fuel s evs).1 := by
-  sorry
+  intro fuel
+  induction fuel with
+  | zero => intro s evs; exact .refl _
+  | succ f ih =>
+    intro s evs
+    by_cases hp : s.pc t = .idle
+    · rw [runAlone_idle hp]; exact .refl _
+    · cases hn : next n s t (choiceFor s t .none false) with
+      | none =>
+        rw [runAlone]
+        split
+        · exact .refl _
+        · simp only [hn]; exact .refl _
+      | some r =>
+        obtain ⟨s', o⟩ := r
+        rw [runAlone_succ hp hn]
+        exact Steps.head (.act _ _ t _ o hn) (ih _ _)
 
 /-- size of what RemoveAll still has to remove -/
 def dsize : Option DirSt → Nat
   | none => 0
   | some d => d.files + (if d.cur then 1 else 0) + 1
+
+theorem dsize_rmOne (d : DirSt) : dsize (rmOne d) < dsize (some d) := by
+  obtain ⟨k, c, g⟩ := d
+  cases c
+  · cases k <;> simp [rmOne, dsize]
+  · simp [rmOne, dsize]
 
 /-- a bound on the number of steps the fetching thread still needs -/
 def rank (n : Nat) (s : VSt) : Pc → Nat
@@ -64,17 +105,303 @@ structure Solo (n : Nat) (t : Tid) (s : VSt) : Prop where
   path : (s.pc t).onPath = true
   fresh : (s.pc t = .fStatDir ∨ s.pc t = .fStatMark ∨ s.pc t = .zEnter) → s.zc t.1 = .idle
 
+/-- a step of `t` touches nobody else's program counter and kills nobody -/
+theorem next_frame {n s t c s' o} (hn : next n s t c = some (s', o)) :
+    (∀ u, u ≠ t → s'.pc u = s.pc u) ∧ s'.dead = s.dead := by
+  all_next
+  all_goals (refine ⟨fun u hu => ?_, rfl⟩; first | rfl | simp [upd, hu])
+
+theorem solo_lock_none {n t s} (h : Solo n t s) (hc : (s.pc t).crit = false) : s.lock = none := by
+  cases hl : s.lock with
+  | none => rfl
+  | some k =>
+    have := h.inv.lock_crit k hl
+    by_cases e : k = t
+    · subst e; rw [hc] at this; cases this
+    · rw [h.others k e] at this; simp [Pc.crit] at this
+
+/-- what one step of the lone thread has to achieve -/
+def Good (n : Nat) (t : Tid) (s : VSt) : Prop :=
+  ∃ s' o, next n s t (choiceFor s t .none false) = some (s', o) ∧
+    (s'.pc t).onPath = true ∧
+    ((s'.pc t = .fStatDir ∨ s'.pc t = .fStatMark ∨ s'.pc t = .zEnter) → s'.zc t.1 = .idle) ∧
+    rank n s' (s'.pc t) < rank n s (s.pc t) ∧ (s'.pc t = .idle → o.ev = .avail)
+
+theorem solo_fStatDir {n t s} (h : Solo n t s) (hp : s.pc t = .fStatDir) : Good n t s := by
+  have hz := h.fresh (Or.inl hp)
+  have ha := h.alive
+  cases hd : s.dir with
+  | none =>
+    refine ⟨{ s with pc := upd s.pc t .zEnter }, {}, by simp [next, hp, ha, hd], ?_⟩
+    simp [upd, Pc.onPath, rank, hp, hd, hz]
+  | some d =>
+    refine ⟨{ s with pc := upd s.pc t .fStatMark }, {}, by simp [next, hp, ha, hd], ?_⟩
+    simp [upd, Pc.onPath, rank, hp, hd, hz]
+
+theorem solo_fStatMark {n t s} (h : Solo n t s) (hp : s.pc t = .fStatMark) : Good n t s := by
+  have hz := h.fresh (Or.inr (Or.inl hp))
+  have ha := h.alive
+  cases hm : s.mark with
+  | true =>
+    refine ⟨{ s with pc := upd s.pc t .zEnter }, {}, by simp [next, hp, ha, hm], ?_⟩
+    simp [upd, Pc.onPath, rank, hp, hz]
+  | false =>
+    refine ⟨{ s with pc := upd s.pc t .idle }, { ev := .avail }, by simp [next, hp, ha, hm], ?_⟩
+    simp [upd, Pc.onPath, rank, hp] <;> omega
+
+theorem solo_zEnter {n t s} (h : Solo n t s) (hp : s.pc t = .zEnter) : Good n t s := by
+  have hz := h.fresh (Or.inr (Or.inr hp))
+  have ha := h.alive
+  refine ⟨{ s with pc := upd s.pc t .zStat1, zc := upd s.zc t.1 (.running t.2) }, {},
+    by simp [next, hp, ha, hz], ?_⟩
+  simp [upd, Pc.onPath, rank, hp] <;> omega
+
+theorem solo_zStat1 {n t s} (h : Solo n t s) (hp : s.pc t = .zStat1) : Good n t s := by
+  have ha := h.alive
+  cases hd : s.zip with
+  | none =>
+    refine ⟨{ s with pc := upd s.pc t .zLock }, {}, by simp [next, hp, ha, hd], ?_⟩
+    simp [upd, Pc.onPath, rank, hp] <;> omega
+  | some d =>
+    refine ⟨{ s with pc := upd s.pc t .lLock, zc := upd s.zc t.1 (.done true) },
+      { hook := some "fetch.zip-ready" }, by simp [next, hp, ha, hd], ?_⟩
+    simp [upd, Pc.onPath, rank, hp] <;> omega
+
+theorem solo_zLock {n t s} (h : Solo n t s) (hp : s.pc t = .zLock) : Good n t s := by
+  have ha := h.alive
+  have hl := solo_lock_none h (by simp [hp, Pc.crit])
+  refine ⟨{ s with pc := upd s.pc t .zStat2, lock := some t }, {}, by simp [next, hp, ha, hl], ?_⟩
+  simp [upd, Pc.onPath, rank, hp] <;> omega
+
+theorem solo_zStat2 {n t s} (h : Solo n t s) (hp : s.pc t = .zStat2) : Good n t s := by
+  have ha := h.alive
+  cases hd : s.zip with
+  | none =>
+    refine ⟨{ s with pc := upd s.pc t .zClean }, {}, by simp [next, hp, ha, hd], ?_⟩
+    simp [upd, Pc.onPath, rank, hp] <;> omega
+  | some d =>
+    refine ⟨{ s with pc := upd s.pc t (.zUnlock true) }, {}, by simp [next, hp, ha, hd], ?_⟩
+    simp [upd, Pc.onPath, rank, hp] <;> omega
+
+theorem solo_zClean {n t s} (h : Solo n t s) (hp : s.pc t = .zClean) : Good n t s := by
+  have ha := h.alive
+  cases hd : s.ztmps with
+  | nil =>
+    refine ⟨{ s with pc := upd s.pc t .zCreate }, {}, by simp [next, hp, ha, hd], ?_⟩
+    simp [upd, Pc.onPath, rank, hp, hd]
+  | cons e r =>
+    obtain ⟨k, b⟩ := e
+    refine ⟨{ s with ztmps := tdel k s.ztmps }, {}, by simp [next, hp, ha, hd], ?_⟩
+    have := tdel_head_length_lt k b r
+    simp [Pc.onPath, rank, hp, hd]; omega
+
+theorem solo_zCreate {n t s} (h : Solo n t s) (hp : s.pc t = .zCreate) : Good n t s := by
+  have ha := h.alive
+  have hf := tget_fresh s.ztmps
+  refine ⟨{ s with pc := upd s.pc t (.zGet (fresh s.ztmps)), ztmps := tset (fresh s.ztmps) .part s.ztmps },
+    { hook := some "zip.tmp-created" }, by simp [next, hp, ha, choiceFor, hf], ?_⟩
+  simp [upd, Pc.onPath, rank, hp] <;> omega
+
+theorem solo_zGet {n t s k} (h : Solo n t s) (hp : s.pc t = .zGet k) : Good n t s := by
+  have ha := h.alive
+  refine ⟨{ s with pc := upd s.pc t (.zCopy k), nget := upd s.nget t.1 (s.nget t.1 + 1) },
+    { ev := .getZip }, by simp [next, hp, ha, choiceFor], ?_⟩
+  simp [upd, Pc.onPath, rank, hp] <;> omega
+
+theorem solo_zCopy {n t s k} (h : Solo n t s) (hp : s.pc t = .zCopy k) : Good n t s := by
+  have ha := h.alive
+  refine ⟨{ s with pc := upd s.pc t (.zRename k),
+                   ztmps := if (tget k s.ztmps).isSome then tset k .full s.ztmps else s.ztmps },
+    { hook := some "zip.copied" }, by simp [next, hp, ha, choiceFor], ?_⟩
+  simp [upd, Pc.onPath, rank, hp] <;> omega
+
+theorem solo_zRename {n t s k} (h : Solo n t s) (hp : s.pc t = .zRename k) : Good n t s := by
+  have ha := h.alive
+  have hl := h.inv.loc t
+  rw [hp] at hl
+  simp only [Local] at hl
+  refine ⟨{ s with pc := upd s.pc t (.zUnlock true), zip := some .full, ztmps := tdel k s.ztmps },
+    { hook := some "zip.renamed" }, by simp [next, hp, ha, hl], ?_⟩
+  simp [upd, Pc.onPath, rank, hp] <;> omega
+
+theorem solo_zUnlock {n t s} (h : Solo n t s) (hp : s.pc t = .zUnlock true) : Good n t s := by
+  have ha := h.alive
+  refine ⟨{ s with pc := upd s.pc t .lLock, lock := unlock s t, zc := upd s.zc t.1 (.done true) },
+    { hook := some "fetch.zip-ready" }, by simp [next, hp, ha], ?_⟩
+  simp [upd, Pc.onPath, rank, hp] <;> omega
+
+theorem solo_lLock {n t s} (h : Solo n t s) (hp : s.pc t = .lLock) : Good n t s := by
+  have ha := h.alive
+  have hl := solo_lock_none h (by simp [hp, Pc.crit])
+  refine ⟨{ s with pc := upd s.pc t .lStatDir, lock := some t }, { hook := some "fetch.locked" },
+    by simp [next, hp, ha, hl], ?_⟩
+  simp [upd, Pc.onPath, rank, hp] <;> omega
+
+theorem solo_lStatDir {n t s} (h : Solo n t s) (hp : s.pc t = .lStatDir) : Good n t s := by
+  have ha := h.alive
+  cases hd : s.dir with
+  | none =>
+    refine ⟨{ s with pc := upd s.pc t .lMark }, { hook := some "fetch.cleaned" },
+      by simp [next, hp, ha, hd], ?_⟩
+    simp [upd, Pc.onPath, rank, hp] <;> omega
+  | some d =>
+    refine ⟨{ s with pc := upd s.pc t .lStatMark }, {}, by simp [next, hp, ha, hd], ?_⟩
+    simp [upd, Pc.onPath, rank, hp] <;> omega
+
+theorem solo_lStatMark {n t s} (h : Solo n t s) (hp : s.pc t = .lStatMark) : Good n t s := by
+  have ha := h.alive
+  cases hm : s.mark with
+  | true =>
+    refine ⟨{ s with pc := upd s.pc t .lRmAll }, {}, by simp [next, hp, ha, hm], ?_⟩
+    simp [upd, Pc.onPath, rank, hp] <;> omega
+  | false =>
+    refine ⟨{ s with pc := upd s.pc t (.fUnlock .avail) }, {}, by simp [next, hp, ha, hm], ?_⟩
+    simp [upd, Pc.onPath, rank, hp] <;> omega
+
+theorem solo_lRmAll {n t s} (h : Solo n t s) (hp : s.pc t = .lRmAll) : Good n t s := by
+  have ha := h.alive
+  cases hd : s.dir with
+  | none =>
+    refine ⟨{ s with pc := upd s.pc t .lMark }, { hook := some "fetch.cleaned" },
+      by simp [next, hp, ha, hd], ?_⟩
+    simp [upd, Pc.onPath, rank, hp, hd, dsize]
+  | some d =>
+    refine ⟨{ s with dir := rmOne d }, {}, by simp [next, hp, ha, hd], ?_⟩
+    have := dsize_rmOne d
+    simp [Pc.onPath, rank, hp, hd]; omega
+
+theorem solo_lMark {n t s} (h : Solo n t s) (hp : s.pc t = .lMark) : Good n t s := by
+  have ha := h.alive
+  refine ⟨{ s with pc := upd s.pc t .uCheck, mark := true }, { hook := some "fetch.partial-written" },
+    by simp [next, hp, ha], ?_⟩
+  simp [upd, Pc.onPath, rank, hp] <;> omega
+
+theorem solo_uCheck {n t s} (h : Solo n t s) (hp : s.pc t = .uCheck) : Good n t s := by
+  have ha := h.alive
+  have hl := h.inv.loc t
+  have hz := h.inv.has_zip t (by simp [hp, Pc.needZip])
+  rw [hp] at hl
+  simp only [Local] at hl
+  refine ⟨{ s with pc := upd s.pc t .uMkdir }, {}, ?_, ?_⟩
+  · cases hzz : s.zip with
+    | none => simp [hzz] at hz
+    | some b => simp [next, hp, ha, hl.1, hzz]
+  · simp [upd, Pc.onPath, rank, hp]
+
+theorem solo_uMkdir {n t s} (h : Solo n t s) (hp : s.pc t = .uMkdir) : Good n t s := by
+  have ha := h.alive
+  refine ⟨_, { hook := some "unzip.dir-created" }, by simp [next, hp, ha]; rfl, ?_⟩
+  simp [upd, Pc.onPath, rank, hp] <;> omega
+
+theorem solo_uCreate {n t s i} (h : Solo n t s) (hp : s.pc t = .uCreate i) : Good n t s := by
+  have ha := h.alive
+  by_cases hi : i < n
+  · refine ⟨_, { hook := some "unzip.file-created" }, by simp [next, hp, ha, hi]; rfl, ?_⟩
+    simp [upd, Pc.onPath, rank, hp] <;> omega
+  · refine ⟨{ s with pc := upd s.pc t .fUnmark }, { hook := some "fetch.unzipped" },
+      by simp [next, hp, ha, hi], ?_⟩
+    simp [upd, Pc.onPath, rank, hp] <;> omega
+
+theorem solo_uWrite {n t s i} (h : Solo n t s) (hp : s.pc t = .uWrite i) : Good n t s := by
+  have ha := h.alive
+  have hl := h.inv.loc t
+  rw [hp] at hl
+  simp only [Local] at hl
+  refine ⟨_, { hook := some "unzip.file-written" }, by simp [next, hp, ha]; rfl, ?_⟩
+  simp [upd, Pc.onPath, rank, hp] <;> omega
+
+theorem solo_fUnmark {n t s} (h : Solo n t s) (hp : s.pc t = .fUnmark) : Good n t s := by
+  have ha := h.alive
+  have hl := h.inv.loc t
+  rw [hp] at hl
+  simp only [Local] at hl
+  refine ⟨{ s with pc := upd s.pc t .fReadOnly, mark := false }, { hook := some "fetch.partial-removed" },
+    by simp [next, hp, ha, hl.2], ?_⟩
+  simp [upd, Pc.onPath, rank, hp] <;> omega
+
+theorem solo_fReadOnly {n t s} (h : Solo n t s) (hp : s.pc t = .fReadOnly) : Good n t s := by
+  have ha := h.alive
+  refine ⟨{ s with pc := upd s.pc t (.fUnlock .avail) }, { hook := some "fetch.done" },
+    by simp [next, hp, ha], ?_⟩
+  simp [upd, Pc.onPath, rank, hp] <;> omega
+
+theorem solo_fUnlock {n t s} (h : Solo n t s) (hp : s.pc t = .fUnlock .avail) : Good n t s := by
+  have ha := h.alive
+  refine ⟨{ s with pc := upd s.pc t .idle, lock := unlock s t }, { ev := .avail },
+    by simp [next, hp, ha], ?_⟩
+  simp [upd, Pc.onPath, rank, hp] <;> omega
+
+theorem solo_good {n t s} (h : Solo n t s) (hne : s.pc t ≠ .idle) : Good n t s := by
+  have hpath := h.path
+  cases hp : s.pc t with
+  | idle => exact absurd hp hne
+  | fStatDir => exact solo_fStatDir h hp
+  | fStatMark => exact solo_fStatMark h hp
+  | zEnter => exact solo_zEnter h hp
+  | zStat1 => exact solo_zStat1 h hp
+  | zLock => exact solo_zLock h hp
+  | zStat2 => exact solo_zStat2 h hp
+  | zClean => exact solo_zClean h hp
+  | zCreate => exact solo_zCreate h hp
+  | zGet k => exact solo_zGet h hp
+  | zCopy k => exact solo_zCopy h hp
+  | zRename k => exact solo_zRename h hp
+  | zUnlock b =>
+    cases b with
+    | true => exact solo_zUnlock h hp
+    | false => simp [hp, Pc.onPath] at hpath
+  | lLock => exact solo_lLock h hp
+  | lStatDir => exact solo_lStatDir h hp
+  | lStatMark => exact solo_lStatMark h hp
+  | lRmAll => exact solo_lRmAll h hp
+  | lMark => exact solo_lMark h hp
+  | uCheck => exact solo_uCheck h hp
+  | uMkdir => exact solo_uMkdir h hp
+  | uCreate i => exact solo_uCreate h hp
+  | uWrite i => exact solo_uWrite h hp
+  | fUnmark => exact solo_fUnmark h hp
+  | fReadOnly => exact solo_fReadOnly h hp
+  | fUnlock r =>
+    cases r with
+    | avail => exact solo_fUnlock h hp
+    | err => simp [hp, Pc.onPath] at hpath
+  | _ => simp [hp, Pc.onPath] at hpath
+
 /-- one step of the lone thread: it is enabled, stays on the path, the rank drops, and if it
 returns, it returns the directory -/
 theorem solo_step {n t s} (h : Solo n t s) (hne : s.pc t ≠ .idle) :
     ∃ s' o, next n s t (choiceFor s t .none false) = some (s', o) ∧ Solo n t s' ∧
       rank n s' (s'.pc t) < rank n s (s.pc t) ∧ (s'.pc t = .idle → o.ev = .avail) := by
-  sorry
+  obtain ⟨s', o, hn, hpath, hfresh, hrank, hev⟩ := solo_good h hne
+  obtain ⟨hpc, hdead⟩ := next_frame hn
+  refine ⟨s', o, hn, ⟨inv_next h.inv hn, ?_, ?_, hpath, hfresh⟩, hrank, hev⟩
+  · intro u hu; rw [hpc u hu]; exact h.others u hu
+  · rw [hdead]; exact h.alive
+
+theorem rank_pos {n s pc} (hpath : pc.onPath = true) (hne : pc ≠ .idle) : 0 < rank n s pc := by
+  cases pc with
+  | zUnlock b => cases b <;> simp [Pc.onPath, rank] at hpath ⊢; omega
+  | fUnlock r => simp [rank]
+  | _ => simp [Pc.onPath, rank] at hpath hne ⊢ <;> omega
 
 theorem solo_run {n t} : ∀ fuel s evs, Solo n t s → s.pc t ≠ .idle → rank n s (s.pc t) ≤ fuel →
     (runAlone n t fuel s evs).1.pc t = .idle ∧ Complete n (runAlone n t fuel s evs).1 ∧
       (runAlone n t fuel s evs).1.mark = false ∧ Ev.avail ∈ (runAlone n t fuel s evs).2 := by
-  sorry
+  intro fuel
+  induction fuel with
+  | zero =>
+    intro s evs h hne hr
+    have := rank_pos (n := n) (s := s) h.path hne
+    omega
+  | succ f ih =>
+    intro s evs h hne hr
+    obtain ⟨s', o, hn, h', hrank, hev⟩ := solo_step h hne
+    rw [runAlone_succ hne hn]
+    by_cases hi : s'.pc t = .idle
+    · rw [runAlone_idle hi]
+      obtain ⟨hc, hm⟩ := avail_event h.inv hn (hev hi)
+      exact ⟨hi, hc, hm, by simp [hev hi]⟩
+    · exact ih s' _ h' hi (by omega)
 
 /-- **recovery** -/
 theorem recover {n s} (h : Inv n s) (hq : ∀ u, s.pc u = .idle) (t : Tid)
@@ -82,6 +409,22 @@ theorem recover {n s} (h : Inv n s) (hq : ∀ u, s.pc u = .idle) (t : Tid)
     (cleanFetch n s t).1.pc t = .idle ∧ Complete n (cleanFetch n s t).1 ∧
       (cleanFetch n s t).1.mark = false ∧ Ev.avail ∈ (cleanFetch n s t).2 ∧
       Steps n s (cleanFetch n s t).1 := by
-  sorry
+  have hn : next n s t { start := .fetch } = some ({ s with pc := upd s.pc t .fStatDir }, {}) := by
+    simp [next, ha, hq t]
+  have hsolo : Solo n t { s with pc := upd s.pc t .fStatDir } := by
+    refine ⟨inv_next h hn, ?_, ha, by simp [upd, Pc.onPath], fun _ => hz⟩
+    intro u hu; simp [upd, hu, hq u]
+  have hrank : rank n { s with pc := upd s.pc t .fStatDir } (upd s.pc t .fStatDir t) ≤ fuelFor n s := by
+    simp only [upd_same, rank, fuelFor]
+    cases hd : s.dir with
+    | none => simp [dsize]; omega
+    | some d => cases hc : d.cur <;> simp [dsize, hc] <;> omega
+  have hne : upd s.pc t .fStatDir t ≠ .idle := by simp
+  have hrun := solo_run (fuelFor n s) _ [] hsolo hne hrank
+  have hst := runAlone_steps n t (fuelFor n s) { s with pc := upd s.pc t .fStatDir } []
+  have hcf : cleanFetch n s t = runAlone n t (fuelFor n s) { s with pc := upd s.pc t .fStatDir } [] := by
+    simp [cleanFetch, hn]
+  rw [hcf]
+  exact ⟨hrun.1, hrun.2.1, hrun.2.2.1, hrun.2.2.2, Steps.head (.act _ _ t _ _ hn) hst⟩
 
 end CueVerif.ModCache
